@@ -1,4 +1,4 @@
-CONSTANTS MaxLen = 4
+CONSTANTS MaxLen = 2
           Mode = "big"
 INIT Init
 NEXT Next
